@@ -169,7 +169,10 @@ class World:
 
     def handlers(self):
         # (every handler with its own level: a per-call override concerns the console, the log file keeps recording as configured)
-        return [type(h).__name__ + ':' + str(h.get_name()) + ('' if h.get_name() == 'console' else '@%s' % h.level) for h in logging.getLogger('emd').handlers]
+        hs = [type(h).__name__ + ':' + str(h.get_name()) + ('' if h.get_name() == 'console' else '@%s' % h.level) for h in logging.getLogger('emd').handlers]
+        # ... and the emd loggers' own levels (what reaches a log file also depends on them)
+        lv = ['%s=%s' % (n, logging.getLogger(n).level) for n in sorted(logging.root.manager.loggerDict) if (n == 'emd' or n.startswith('emd.')) and isinstance(logging.getLogger(n), logging.Logger)]
+        return hs + lv
 
 
 def step(world, model, op, variant='sift'):
